@@ -20,26 +20,41 @@ theorem reach_leakStep (p : PSt) (h : Reachable p.gs) : Reachable (leakStep p).1
       ((runG p (leakOps p)).gs, (runG p (leakOps p)).err)).1, _))
     (reach_zeroAll _ (reach_dropAll _ _ _ h1)) trivial
 
-theorem reach_step (p : PSt) (line : String) (h : Reachable p.gs) :
-    Reachable (step p line).1.gs := by
-  unfold step
+/-- the compiled form of a line, whatever it is, keeps the collector state reachable (one case per
+    constructor of `R`) -/
+theorem reach_stepR (p : PSt) (r : R) (h : Reachable p.gs) : Reachable (stepR p r).1.gs := by
+  unfold stepR
   dsimp only
   split
+  · -- `.ops`
+    exact reach_ite (reach_runG _ _ h) (reach_runG _ _ h)
+  · -- `.sw`: `pre`, then either the first selection, a collection and `atClose`, or nothing; then `post`
+    refine reach_ite ?_ ?_ <;> refine reach_runG _ _ ?_ <;> refine reach_ite ?_ ?_
+    all_goals first
+      | exact reach_runG _ _ (reach_rewireAll _ (reach_runG _ _ h))
+      | exact reach_runG _ _ h
+  · -- `.hints`
+    exact h
+  · -- `.quiet`
+    exact reach_runG _ _ (reach_ite (reach_rewireAll _ h) h)
+  · -- `.open_`
+    exact h
+  · -- `.close`
+    split
+    · exact h
+    · exact reach_runG _ _ (reach_ite (reach_rewireAll _ (reach_runG _ _ h)) h)
+  · exact h
+  · exact h
+  · exact h
+  · exact h
+  · exact reach_leakStep p h
+
+theorem reach_step (p : PSt) (line : String) (h : Reachable p.gs) :
+    Reachable (step p line).1.gs := by
+  rw [step_eq_stepR]
+  split
   · exact .init
-  · split
-    · split
-      · exact reach_runG _ _ h
-      · exact reach_runG _ _ h
-    · exact reach_runG _ _ h
-    · exact h
-    · split
-      · exact h
-      · exact reach_runG _ _ h
-    · exact h
-    · exact h
-    · exact h
-    · exact h
-    · exact reach_leakStep p h
+  · exact reach_stepR p _ h
 
 theorem reach_steps : ∀ (lines : List String) (p : PSt), Reachable p.gs →
     Reachable (lines.foldl (fun p l => (step p l).1) p).gs := by
@@ -221,6 +236,105 @@ example :
     (∀ i, i < 3 → ((leakStep p).1.gs.g.nodes.get i).freed = false) ∧
     leakCount (leakStep p).1 = 2 := by
   decide +kernel
+
+/-! ### non-vacuity: a switch that is rewired
+
+  `trimAscii`, `splitOn`, `toNat?`, `toInt?` do not reduce in the kernel, so `run` on strings cannot be decided there.
+  The example is stated on `stepR` (= `step` after tokenisation, `step_eq_stepR` / `step_of_tokens`): nine of the
+  eleven lines go through the real `compile` on their words; the two lines whose compilation parses a number
+  (`switchs … @2`, `cellvals 2:1`) are given by their compiled form, which the `#guard`s below compare (by
+  evaluation, at build time) with what `compile` answers on the tokenised strings. -/
+
+deriving instance DecidableEq for R
+
+/-- two sinks, a selector cell (value 0, number 2 in the value oracle), the switch over the two sinks, a listener on
+    its output; the selector becomes 1 (`cellvals` is the oracle, `send` ends a transaction: the rewiring happens);
+    then everything is dropped -/
+def exSwitchLines : List String :=
+  ["ssink a", "ssink b", "csink c 0", "switchs x c a b @2", "listen l x", "cellvals 2:1", "send c 1",
+   "graphdump", "drop x", "unlisten l", "leakcheck"]
+
+/-- what `switchs x c a b @2` compiles to after the first three lines (sinks `0`, `1`; selector: stream `2`, hold
+    node `3`): `sel.map` node `4` (declares the candidates), cell `5`, wrapper `6`, cell `7`, placeholder `8`,
+    inner node `9`, outer node `10` -/
+def exSwitchR : R :=
+  .sw
+    [.inc 3, .inc 0, .inc 1, .deref 3 2,
+     .new "Stream::map", .edge 4 2, .edge 4 2, .edge 4 0, .edge 4 1, .sdeps 4 [2],
+     .new "Cell::hold", .edge 5 4, .edge 5 4, .edge 5 4, .sdeps 5 [4], .dec 4, .dec 2, .eot,
+     .deref 5 4, .new "Stream::map", .edge 6 4, .edge 6 4, .sdeps 6 [4],
+     .new "Cell::hold", .edge 7 6, .edge 7 6, .edge 7 6, .sdeps 7 [6], .dec 6, .dec 4, .eot,
+     .new "Stream::new", .sdeps 8 [], .dec 8,
+     .new "switch_s inner node", .sdeps 9 [], .deref 7 6,
+     .new "switch_s outer node", .edge 10 6, .edge 10 6, .edge 10 9, .sdeps 10 [6],
+     .edge 9 10, .dec 10, .dec 6]
+    [.dec 7, .dec 5]
+    [.dec 0, .dec 1, .dec 3]
+    [("#switch:x", .temps [7, 5]), ("x", .stream 9), ("c", .csink 3 2), ("b", .ssink 1), ("a", .ssink 0)]
+    { n1 := 9, chain := [10, 6, 4], cands := [0, 1], sel := 2 }
+
+/-- a script given line by line as words (compiled by `compile`) or as an already compiled line -/
+def runItems (p : PSt) (l : List (List String ⊕ R)) : PSt :=
+  l.foldl (fun p it => match it with
+    | .inl ws => (stepR p (compile p.env p.gs.g.nextId ws)).1
+    | .inr r => (stepR p r).1) p
+
+theorem reach_runItems : ∀ (l : List (List String ⊕ R)) (p : PSt), Reachable p.gs →
+    Reachable (runItems p l).gs := by
+  intro l
+  induction l with
+  | nil => intro p h; exact h
+  | cons it r ih =>
+    intro p h
+    cases it with
+    | inl ws => exact ih _ (reach_stepR p _ h)
+    | inr c => exact ih _ (reach_stepR p c h)
+
+def exSwitchItems : List (List String ⊕ R) :=
+  [.inl ["ssink", "a"], .inl ["ssink", "b"], .inl ["csink", "c", "0"], .inr exSwitchR,
+   .inl ["listen", "l", "x"], .inr (.hints [(2, 1)]), .inl ["send", "c", "1"], .inl ["graphdump"],
+   .inl ["drop", "x"], .inl ["unlisten", "l"], .inl ["leakcheck"]]
+
+-- evaluation checks (run at build time, not theorems): the tokenisation of the lines, the compiled form of the two
+-- lines that parse numbers, and the facts proved below as they come out of `run` on the strings
+#guard exSwitchLines.map tokens ==
+  [["ssink", "a"], ["ssink", "b"], ["csink", "c", "0"], ["switchs", "x", "c", "a", "b", "@2"],
+   ["listen", "l", "x"], ["cellvals", "2:1"], ["send", "c", "1"], ["graphdump"], ["drop", "x"],
+   ["unlisten", "l"], ["leakcheck"]]
+#guard compile (runItems {} (exSwitchItems.take 3)).env (runItems {} (exSwitchItems.take 3)).gs.g.nextId
+  (tokens "switchs x c a b @2") = exSwitchR
+#guard compile [] 0 (tokens "cellvals 2:1") = .hints [(2, 1)]
+#guard (run exSwitchLines).err = false
+#guard (run (exSwitchLines.take 5)).sw.map (·.cur) = [none]
+#guard (run (exSwitchLines.take 8)).sw.map (·.cur) = [some 1]
+#guard leakCount (run exSwitchLines) = 0
+#guard (step (run (exSwitchLines.take 7)) "graphdump").2 =
+  "graph Stream::new:2[] Stream::new:3[] Stream::new:6[] Cell::hold:1[2,2,2] Stream::map:2[0,1,2,2] " ++
+  "Stream::map:2[4,4] switch_s inner node:4[1,7] switch_s outer node:1[5,5,6] Stream::listen:1[6,6] Listener::new:2[8]"
+
+/-- the switch recipe runs without a structural error (no inapplicable operation, handle balance after every line) in
+    reachable states.  Built with no value known for the selector, the inner node `9` owns only the outer node `10`;
+    once the oracle says the selector is worth 1 and a transaction ends, the rewiring makes it depend on candidate
+    `b` (object `1`) — through temporary handles that are all given back (`err = false` includes `balanced`); after
+    the drops, `leakcheck` keeps nothing and frees every one of the 13 objects -/
+example :
+    (runItems {} exSwitchItems).err = false ∧ Reachable (runItems {} exSwitchItems).gs ∧
+    (let p := runItems {} (exSwitchItems.take 5)
+     p.err = false ∧ p.sw.map (·.cur) = [none] ∧ (p.gs.g.node 9).owned = [10] ∧ p.gs.handles.get 9 = 1) ∧
+    (let p := runItems {} (exSwitchItems.take 8)
+     p.err = false ∧ Reachable p.gs ∧ p.sw.map (·.cur) = [some 1] ∧ (p.gs.g.node 9).owned = [10, 1] ∧
+     p.gs.handles.get 9 = 1 ∧ (p.gs.g.node 1).freed = false) ∧
+    (let p := runItems {} (exSwitchItems.take 10)
+     (leakStep p).2 = [] ∧ (leakStep p).1.gs.g.nextId = 13 ∧
+     ∀ i, i < (leakStep p).1.gs.g.nextId → ((leakStep p).1.gs.g.nodes.get i).freed = true) ∧
+    leakCount (runItems {} exSwitchItems) = 0 := by
+  have hr := fun l => reach_runItems l {} .init
+  have hk : (leakStep (runItems {} (exSwitchItems.take 10))).2 = [] := by decide +kernel
+  exact ⟨by decide +kernel, hr _,
+    ⟨by decide +kernel, by decide +kernel, by decide +kernel, by decide +kernel⟩,
+    ⟨by decide +kernel, hr _, by decide +kernel, by decide +kernel, by decide +kernel, by decide +kernel⟩,
+    ⟨hk, by decide +kernel, leakStep_frees_all _ (hr _) hk⟩,
+    by decide +kernel⟩
 
 end Struct
 end SodiumVerif
